@@ -19,8 +19,8 @@ theorem delivered_is_prefix (up : Bool) (st : Stats) (s : Script) :
     (halfPipe up st s).delivered <+: allBytes s.reads :=
   run_prefix s
 
-/-- **Completeness up to the first fault.**  If no write fails or falls short and no `SetDeadline`
-fails, *everything* read is delivered: all bytes of all reads up to and including the first read that
+/-- **Completeness up to the first fault.**  If no write fails or falls short and every deadline call
+succeeds (directly, or through the `SetReadDeadline` fallback of a connection that answers ENOTSUP), *everything* read is delivered: all bytes of all reads up to and including the first read that
 reported an error or EOF — the bytes that arrived together with that indication included. -/
 theorem delivered_complete_until_fault (up : Bool) (st : Stats) (s : Script)
     (hw : noWriteFault s.writes) (hd : allDlOk s.dls) (hc : conforming s.reads) :
@@ -147,6 +147,24 @@ def ex2 : Script :=
 
 example : (halfPipe false {} ex2).delivered = [1, 2, 3, 4] ∧ (halfPipe false {} ex2).counted = 4 ∧
     (halfPipe false {} ex2).stats.client = "short write" := by decide
+
+/-- a source that supports read deadlines only (an obfs4 connection: `SetDeadline` answers ENOTSUP, the
+`SetReadDeadline` fallback works): the hypotheses of completeness hold and everything is delivered —
+where C04 meets C05 -/
+def ex3 : Script :=
+  { reads := [⟨[1, 2], none⟩, ⟨[3], some .eof⟩], writes := [],
+    dls := [.unsupported true, .ok, .unsupported true, .ok] }
+
+example : allDlOk ex3.dls := by
+  intro d hd
+  simp [ex3] at hd
+  rcases hd with rfl | rfl | rfl | rfl <;> rfl
+
+example : (halfPipe true {} ex3).delivered = [1, 2, 3] ∧ (halfPipe true {} ex3).logs = 0 := by decide
+
+/-- … and when the fallback fails as well, the direction ends there, logged once, both sides closed -/
+example : (halfPipe true {} { ex3 with dls := [.unsupported false] }).trace = [.dl true false true] ∧
+    (halfPipe true {} { ex3 with dls := [.unsupported false] }).logs = 1 := by decide
 
 example : dialSane { dialErr := some .refused, header := none, up := ex1, down := ex2 } := by
   intro e he; cases he; exact ⟨"refused", rfl, by decide⟩
